@@ -133,20 +133,6 @@ def unescape_names(p):
     return p
 
 
-def lower_page_selectors(p):
-    """projection with the selector of every @page rule lower-cased — only used to recognise the region of known
-    finding C02-page-pseudo-case"""
-    out = []
-    for r in p:
-        if isinstance(r, tuple) and r and r[0] == 'page':
-            out.append((r[0], r[1].lower()) + tuple(r[2:]))
-        elif isinstance(r, tuple) and r and r[0] == 'media':
-            out.append(r[:3] + (lower_page_selectors(r[3]),))
-        else:
-            out.append(r)
-    return out
-
-
 def has_calc(decl):
     """a value with a calc() whose operator needs the white space around it (+ and -)"""
     return any(c[0] == 'calc' and c[2] in '+-' for c in decl[1])
@@ -493,9 +479,6 @@ class C02(Check):
                 if a != b and unescape_names(a) == unescape_names(b):
                     ctx.violate('same DOM under CSS escapes of ordinary name characters', {'text': text, 'canonical': canon_text},
                                 {'first_difference': first_diff(b, a)}, known='C02-simple-escapes-kept')
-                elif a != b and lower_page_selectors(unescape_names(a)) == lower_page_selectors(unescape_names(b)):
-                    ctx.violate('same DOM under letter case of the pseudo-page name', {'text': text, 'canonical': canon_text},
-                                {'first_difference': first_diff(b, a)}, known='C02-page-pseudo-case')
                 elif a != b:
                     clause = ('the result is the same for every way of writing the sheet (white space, comments, case of '
                               'case-insensitive parts, quote style, escapes of name characters)')
